@@ -21,8 +21,11 @@ for d in sorted(glob.glob(OUT + "/C*")):
             continue
         c = conf.get(name, "")
         ok = "clean_demo_rc=0" in c and re.search(r"mutant_demo_rc=(?!0\b)\d+", c) and "0 tests failed out of 31" in c
-        det_log = "/tmp/t/%sm%d.out" % (pid, k)
-        det = open(det_log).read() if os.path.exists(det_log) else ""
+        det = ""
+        for det_log in ("/tmp/t/%sm%d.out" % (pid, k), "/tmp/mw/%sm%d.log" % (pid, k)):
+            if os.path.exists(det_log) and ("VIOLATION" in open(det_log).read() or "tier=" in open(det_log).read()):
+                det = open(det_log).read()
+                break
         viol = [l for l in det.splitlines() if l.startswith("VIOLATION") or l.startswith("  query=")][:4]
         summ = [l for l in det.splitlines() if re.match(r"^C\d\d tier=", l)]
         status = "caught" if any(l.startswith("VIOLATION") for l in viol) else ("missed" if summ and "violations=0" in summ[-1] and "broken=0" in summ[-1] else "inconclusive/not run")
